@@ -23,10 +23,12 @@ structure DpWF (P : Bytes) (dp : Dp) : Prop where
   inside : dp.lv3.offset + dp.lv3.size * 2 ≤ P.length
 
 /-- content of IVFC level `idx` (0-3) as the hash tree sees it -/
-def levelBytes (P : Bytes) (t : Tree) (idx : Nat) : Bytes :=
+def levelFrom (V : Bytes) (P : Bytes) (t : Tree) (idx : Nat) : Bytes :=
   match (if 3 ≤ idx then t.external else none) with
   | some (eo, es) => slice (slice P eo es) 0 (t.level idx).size
-  | none => slice (dpfsView P t.dp) (t.level idx).offset (t.level idx).size
+  | none => slice V (t.level idx).offset (t.level idx).size
+
+def levelBytes (P : Bytes) (t : Tree) (idx : Nat) : Bytes := levelFrom (dpfsView P t.dp) P t idx
 
 /-- the IVFC levels lie inside the DPFS view (or, for an external level 4, inside the partition) -/
 structure TreeWF (P : Bytes) (t : Tree) : Prop where
@@ -109,6 +111,64 @@ inductive ReachRO (H : Bytes → Bytes) : Cont → Cont → Prop
       ReachRO H c0 c → contSeek c pi off wh = .ok (n, c') → ReachRO H c0 c'
   | blk {c0 c c' : Cont} (pi level block : Nat) (vf dv : Bool) (r : Bytes × Option Bool) :
       ReachRO H c0 c → contBlock H c pi level block vf dv = .ok (r, c') → ReachRO H c0 c'
+
+/-- is level `idx` stored inside the DPFS level-3 view (rather than in an external window)? -/
+def Tree.internal (t : Tree) (idx : Nat) : Bool := !(decide (3 ≤ idx) && t.external.isSome)
+
+/-- two levels do not overlap inside the DPFS view -/
+def Tree.apart (t : Tree) (i j : Nat) : Bool :=
+  decide ((t.level i).offset + (t.level i).size ≤ (t.level j).offset ∨ (t.level j).offset + (t.level j).size ≤ (t.level i).offset)
+
+/-- the geometry under which the write path is specified by `absWrite`: the DPFS view is defined, the hash-tree levels lie inside
+    it (or in an external window that stays clear of the DPFS area) and do not overlap, every level has room for the hashes of the
+    level below it, and there is a master hash for every block of level 1 -/
+def geomOK (P : Bytes) (t : Tree) (master : List Bytes) : Bool :=
+  decide (nblocks t.dp.lv3.size t.dp.lv3.bs ≤ 32 * t.dp.lv2bits.length) &&
+  decide (t.dp.lv3.offset + t.dp.lv3.size * 2 ≤ P.length) &&
+  (List.range 4).all (fun i => !t.internal i || decide ((t.level i).offset + (t.level i).size ≤ t.dp.lv3.size)) &&
+  (match t.external with
+    | none => true
+    | some (eo, es) => decide (es = t.ivfc.lv4.size) && decide (eo + es ≤ P.length) &&
+        decide (eo + es ≤ t.dp.lv3.offset ∨ t.dp.lv3.offset + t.dp.lv3.size * 2 ≤ eo)) &&
+  (List.range 4).all (fun i => (List.range 4).all fun j => decide (i = j) || !t.internal i || !t.internal j || t.apart i j) &&
+  (List.range 3).all (fun i => decide (nblocks (t.level (i + 1)).size (t.level (i + 1)).bs * 0x20 ≤ (t.level i).size)) &&
+  decide (nblocks (t.level 0).size (t.level 0).bs ≤ master.length)
+
+/-! ### the write path on levels as byte arrays (specification of `IVFCHashTree.write_data`) -/
+
+/-- the hash function maps something to 32 zero bytes (then that block reads as "uninitialised", not as valid) -/
+def ZeroHash (H : Bytes → Bytes) : Prop := ∃ x, H x = zeros 0x20
+
+/-- `level_fp.seek(off); level_fp.write(data)`: clamped to the level -/
+def absLevelWrite (A : Bytes) (off : Nat) (data : Bytes) : Bytes :=
+  let pos := min off A.length
+  overlay A pos (data.take (A.length - pos))
+
+/-- hashes of blocks `sb .. sb+n-1` of a level -/
+def blockHashes (H : Bytes → Bytes) (A : Bytes) (bs sb n : Nat) : List Bytes :=
+  (List.range n).map fun i => H (ljustZero (slice A ((sb + i) * bs) bs) bs)
+
+def setMaster (master : List Bytes) (sb : Nat) (hashes : List Bytes) : List Bytes :=
+  (List.range hashes.length).foldl (fun (m : List Bytes) i => m.set (sb + i) (hashes.getD i [])) master
+
+/-- `IVFCHashTree.write_data` on `(levels, master hashes)` -/
+def absWrite (H : Bytes → Bytes) (bsOf : Nat → Nat) : (idx : Nat) → Nat → Bytes → (Nat → Bytes) × List Bytes → Except Err ((Nat → Bytes) × List Bytes)
+  | 0, offset, data, (L, master) =>
+    let bs := bsOf 0
+    let sb := offset / bs
+    let eb := max ((offset + data.length + bs - 1) / bs - 1) sb
+    let A' := absLevelWrite (L 0) offset data
+    let hashes := blockHashes H A' bs sb (eb + 1 - sb)
+    if sb + hashes.length > master.length then .error .indexError
+    else .ok (fun j => if j = 0 then A' else L j, setMaster master sb hashes)
+  | up + 1, offset, data, (L, master) =>
+    let bs := bsOf (up + 1)
+    let sb := offset / bs
+    let eb := max ((offset + data.length + bs - 1) / bs - 1) sb
+    let A' := absLevelWrite (L (up + 1)) offset data
+    let hashes := blockHashes H A' bs sb (eb + 1 - sb)
+    absWrite H bsOf up (sb * 0x20) hashes.flatten (fun j => if j = up + 1 then A' else L j, master)
+
 
 end Save
 end Pyctr
